@@ -53,6 +53,13 @@ def handlers : List (String × Handler) := [
   ("atoms.watcomplete", fun a => match a with
     | [s, fixed] => enc (watComplete (names s) (decBool fixed))
     | _ => str "bad-op"),
+  ("atoms.repair", fun a => match a with
+    | [refn, s] => let r := repairHeavy (names refn) (names s); enc r.1 ++ ['|'] ++ enc r.2
+    | _ => str "bad-op"),
+  ("atoms.addh", fun a => match a with
+    | [refn, s, skipHG] =>
+      enc (addHydrogens (names refn) (fun n => decBool skipHG && n = str "HG") (fun _ => true) (names s))
+    | _ => str "bad-op"),
   ("atoms.cleanup", fun a => match a with
     | [s, f1, f2] => enc (cleanup (names s) (unhex f1) (unhex f2))
     | _ => str "bad-op")
